@@ -40,6 +40,9 @@ def jobs(tier, seed):
     for n in (0, 1, 24):
         for cur in (0, 24):
             out.append(('run.N=%d.cur=%d' % (n, cur), 'c_run', dict(n=n, cur0=cur)))
+    for k in (1, 2, 3):
+        out.append(('gsmtime.events=%d' % k, 'c_gsmtime', dict(k=k)))
+    out.append(('execute.reentrant', 'c_reentrant', {}))
     out.append(('validation', 'c_validate', dict(seed=seed)))
     return out
 
@@ -157,6 +160,84 @@ def c_reset(hid, timeout_ms=60000):
         j.must_hold(ex, 'num_items[%d]' % b, [], post[L.num(b)][1].e == z3.If(cur.e == b, nums[b].e, 0))
     j.must_hold(ex, 'cur-unchanged', [], post[L.cur()][1].e == cur.e)
     j.must_hold(ex, 'only-counters-written', [], z3.BoolVal(set(post) <= set(cells)))
+    return j.stats
+
+
+GSMTIME = os.path.join(cjob.FW, 'layer1/sched_gsmtime.c')
+HYPERFRAME = 2715648
+
+
+def c_gsmtime(hid, k, timeout_ms=60000):
+    """sched_gsmtime.c (one-shot sets at an absolute frame number): k events registered with symbolic frame numbers, then
+    sched_gsmtime_execute(fn) for a symbolic fn: the TDMA scheduler gets exactly the sets of the events due at fn + 2 (each once,
+    with its own parameter), the return value counts them, and an event that is not due - earlier or later - never keeps a due one
+    from being handed over"""
+    j = cjob.CJob(hid, timeout_ms)
+    M = cjob.ir('sched_gsmtime', GSMTIME, cjob.FW_INCS)
+    ex = Exec(M, max_iter=64); ex.prune_branches = True
+    for f in ('@puts', '@printf', '@putchar'): ex.stubs[f] = lambda e, st, a: C(0)
+    handed = []
+    def sched_set(e, st, a):
+        for g2, ptr in e.targets(a[1]):                    # the set pointer may be a guarded choice among the registered events
+            handed.append((llsym.gand(st.guard, g2), a[0], ptr, a[2]))
+        return C(1)
+    ex.stubs['@tdma_schedule_set'] = sched_set
+    fns = [j.var(ex, 'event%d.fn' % i, 0, HYPERFRAME - 1) for i in range(k)]
+    p3s = [j.var(ex, 'event%d.p3' % i, 0, 65535) for i in range(k)]
+    fn = j.var(ex, 'fn', 0, HYPERFRAME - 3)
+    mem = ex.run('@sched_gsmtime_init', [], {}).mem
+    sets = [ex.new_obj(16, 'set%d' % i) for i in range(k)]
+    for i in range(k):
+        out = ex.run('@sched_gsmtime', [Ptr(sets[i], C(0)), fns[i], p3s[i]], mem); mem = out.mem
+        j.must_hold(ex, 'register[%d]:accepted' % i, [], out.ret.e == 0)
+    out = ex.run('@sched_gsmtime_execute', [fn], mem)
+    j.witness(ex, [])
+    j.memory_obligations(ex, [])
+    if j.stats.failures: return j.stats
+    due = [fns[i].e == fn.e + 2 for i in range(k)]
+    j.must_hold(ex, 'returns-number-of-due-events', [], out.ret.e == z3.Sum([z3.If(d, 1, 0) for d in due]))
+    for i in range(k):
+        mine = [(g, off, si, p3) for g, off, si, p3 in handed if isinstance(si, Ptr) and si.obj == sets[i]]
+        others = [(g, si) for g, off, si, p3 in handed if not isinstance(si, Ptr)]
+        cnt = z3.Sum([z3.If(g if g is not True else z3.BoolVal(True), 1, 0) for g, off, si, p3 in mine]) if mine else z3.IntVal(0)
+        j.must_hold(ex, 'event[%d]:handed-over-once-iff-due' % i, [], cnt == z3.If(due[i], 1, 0))
+        for g, off, si, p3 in mine:
+            gg = g if g is not True else z3.BoolVal(True)
+            j.must_hold(ex, 'event[%d]:own-parameter-and-one-frame-ahead' % i, [], z3.Implies(gg, z3.And(p3.e == p3s[i].e, off.e == 1)))
+    # guarded pointer sets: a hand-over whose set pointer is a choice of several events
+    for g, off, si, p3 in handed:
+        if not isinstance(si, Ptr): raise core.Unsupported('set pointer of a hand-over is a guarded choice (%r)' % (si,))
+    j.stats.extra['ir_steps'] = ex.steps
+    return j.stats
+
+
+def c_reentrant(hid, timeout_ms=60000):
+    """a callback that schedules a further item for the frame being executed (offset 0, as l1s_rx_win_ctrl does): the new item runs in
+    this very execute call, once, and the frame is left empty"""
+    j, ex, L, calls = setup(hid, timeout_ms)
+    cur = 7
+    cells = {L.cur(): (1, C(cur))}
+    for b in range(L.nb): cells[L.num(b)] = (1, C(0))
+    cells[L.num(cur)] = (1, C(1))
+    it = sym_item(j, ex, L, cells, cur, 0, 'first', cb='@cb_resched')
+    q1 = j.var(ex, 'second.p1', 0, 255); q2 = j.var(ex, 'second.p2', 0, 255); q3 = j.var(ex, 'second.p3', 0, 65535)
+    order = []
+    def cb_resched(e, st, a):
+        order.append((st.guard, 'first', a))
+        o = e.run('@tdma_schedule', [C(0), FnPtr('@cb_stub'), q1, q2, q3, C(5)], st.mem, st.guard)
+        st.mem = o.mem
+        return C(0)
+    def cb_second(e, st, a):
+        order.append((st.guard, 'second', a)); return C(0)
+    ex.stubs['@cb_resched'] = cb_resched; ex.stubs['@cb_stub'] = cb_second
+    out = ex.run('@tdma_sched_execute', [], {'g:@l1s': cells})
+    j.witness(ex, []); j.memory_obligations(ex, [])
+    kinds = [k for g, k, a in order if g is not False]
+    j.must_hold(ex, 'first-item-once-then-the-item-it-scheduled-once', [], z3.BoolVal(kinds == ['first', 'second']), order=kinds)
+    for g, k, a in order:
+        if k == 'second': j.must_hold(ex, 'second:own-parameters', [], z3.And(a[0].e == q1.e, a[1].e == q2.e, a[2].e == q3.e))
+    j.must_hold(ex, 'returns-2', [], out.ret.e == 2)
+    j.must_hold(ex, 'frame-left-empty', [], out.mem['g:@l1s'][L.num(cur)][1].e == 0)
     return j.stats
 
 
@@ -357,6 +438,40 @@ def native(script):
     return rc, out
 
 
+GSMTIME_DRV = r"""
+#include <stdio.h>
+#include <stdlib.h>
+#include <string.h>
+#include "%(src)s"
+int sercomm_putchar(int c) { return c; }
+static struct tdma_sched_item sets[8][2];
+int tdma_schedule_set(uint8_t off, const struct tdma_sched_item *si, uint16_t p3) { printf("HANDED %%d %%d %%u\n", (int)((const struct tdma_sched_item (*)[2])si - sets), off, p3); return 1; }
+int main(int argc, char **argv) {
+  int k = atoi(argv[1]); sched_gsmtime_init();
+  for (int i = 0; i < k; i++) printf("REG %%d\n", sched_gsmtime(sets[i], strtoul(argv[2 + 2 * i], 0, 10), atoi(argv[3 + 2 * i])));
+  printf("EXEC %%d\n", sched_gsmtime_execute(strtoul(argv[2 + 2 * k], 0, 10)));
+  return 0;
+}
+"""
+
+REENTRANT_DRV = r"""
+#include <stdio.h>
+#include <stdlib.h>
+#include <string.h>
+#include "%(src)s"
+struct l1s_state l1s;
+int sercomm_putchar(int c) { return c; }
+static int cb_second(uint8_t p1, uint8_t p2, uint16_t p3) { printf("CALL second %%d %%d %%d\n", p1, p2, p3); return 0; }
+static int cb_first(uint8_t p1, uint8_t p2, uint16_t p3) { printf("CALL first\n"); tdma_schedule(0, cb_second, 11, 22, 333, 5); return 0; }
+int main(void) {
+  l1s.tdma_sched.cur_bucket = 7; l1s.tdma_sched.bucket[7].num_items = 1; l1s.tdma_sched.bucket[7].item[0].cb = cb_first;
+  int rc = tdma_sched_execute();
+  printf("RC %%d LEFT %%d\n", rc, l1s.tdma_sched.bucket[7].num_items);
+  return 0;
+}
+"""
+
+
 def _i16(v): return v - 65536 if v >= 32768 else v
 
 
@@ -429,6 +544,25 @@ def replay(body):
         erc = (len(groups) if fn == 'c_set' else 0) if ok_all else -1
         good = grc == erc and gn == en and all(gi_.get(k) == v for k, v in eit.items())
         return (0, 'native agrees') if good else (1, 'REPRODUCED on native build: rc=%d (expected %d), fill levels %s (expected %s)' % (grc, erc, gn, en))
+    if fn == 'c_gsmtime':
+        import re
+        k = sh['k']; fns = [i.get('event%d.fn' % x, 0) for x in range(k)]; p3s = [i.get('event%d.p3' % x, 0) for x in range(k)]; cur = i.get('fn', 0)
+        args = [k] + [v for pr in zip(fns, p3s) for v in pr] + [cur]
+        rc, out = cjob.run_native(GSMTIME_DRV % dict(src=GSMTIME), None, cjob.FW_INCS, args=args)
+        if rc is None: return 2, out
+        if rc != 0: return 1, 'REPRODUCED: native run failed/sanitizer: ' + out[-800:]
+        got = sorted((int(a), int(b), int(c)) for a, b, c in re.findall(r'HANDED (-?\d+) (\d+) (\d+)', out))
+        want = sorted((x, 1, p3s[x]) for x in range(k) if fns[x] == cur + 2)
+        n = int(re.search(r'EXEC (-?\d+)', out).group(1))
+        return (0, 'native agrees') if got == want and n == len(want) else (1, 'REPRODUCED on native sched_gsmtime.c: events at %s, execute(%d) handed over %s (returned %d), due were %s' % (fns, cur, got, n, want))
+    if fn == 'c_reentrant':
+        import re
+        rc, out = cjob.run_native(REENTRANT_DRV % dict(src=SRC), None, cjob.FW_INCS, args=[])
+        if rc is None: return 2, out
+        if rc != 0: return 1, 'REPRODUCED: native run failed/sanitizer: ' + out[-800:]
+        calls = re.findall(r'CALL (\w+)', out); m = re.search(r'RC (-?\d+) LEFT (\d+)', out)
+        ok = calls == ['first', 'second'] and m and int(m.group(1)) == 2 and int(m.group(2)) == 0
+        return (0, 'native agrees') if ok else (1, 'REPRODUCED on native tdma_sched.c: a callback scheduling an item for the current frame: calls %s, %s' % (calls, m.group(0) if m else out[-200:]))
     if fn == 'c_flag_scan':
         cur = sh['cur']; n = i.get('num_items', 0)
         sc = ['cur', cur, 'num', cur, n]; want = 0
